@@ -46,7 +46,8 @@ FileSpace(kind, rich) ==
 
 (* Malformed configurations (second sentence of the property): where, what *)
 BadKinds == {"unknown_key", "wrong_type", "nested_overrides", "module_at_top",
-             "override_without_module", "recursive", "missing_file", "overrides_not_list"}
+             "override_without_module", "recursive", "missing_file", "overrides_not_list",
+             "bool_for_int", "disable_all_not_bool"}
 
 FileName(i) == <<"f1", "f2", "f3">>[i]
 Tag(i, sec) == FileName(i) \o "." \o sec       \* the command line is "cmd"
